@@ -350,7 +350,9 @@ def job_path_effects(family, shape, batch_size=None, outer=2):
 
 NAMED_AFFINITIES = [("LinearMMD", "kernel", k) for k in ("linear", "rbf", "poly", "polynomial", "sigmoid", "laplacian", "cosine", "additive_chi2", "chi2")] + \
                    [("LinearWasserstein", "metric", m) for m in ("euclidean", "sqeuclidean", "cosine", "manhattan", "chebyshev", "cityblock", "l1", "l2")] + \
-                   [("KernelRIM", "base_kernel", k) for k in ("linear", "rbf", "cosine", "laplacian")]
+                   [("KernelRIM", "base_kernel", k) for k in ("linear", "rbf", "cosine", "laplacian")] + \
+                   [("LinearMMD", "kernel+params", (k, pr)) for k, pr in (("poly", {"degree": 2}), ("rbf", {}), ("sigmoid", {"coef0": 1.0}), ("laplacian", {}), ("polynomial", {"coef0": 0}))] + \
+                   [(c, "precomputed", ovo) for c in ("LinearWasserstein", "LinearMMD", "CategoricalWasserstein", "CategoricalMMD") for ovo in (False, True)]
 
 
 def job_effects_named():
@@ -515,6 +517,24 @@ def job_kauri():
             if not ok and not res["violations"]:
                 res["violations"].append({"signature": f"{PROP}:Kauri:history-dependent", "what": f"Kauri.fit after {seq} differs from a fresh fit", "replay": {"kind": "kauri"}})
             res["paths"] += 1
+    # same-shape data with the same grand sum (integer-valued rows in another order, rows exchanging mass): whatever was computed for the
+    # training data must not be taken for theirs -- refit == fresh fit, score == kernel objective of the predicted partition
+    from sklearn.metrics import pairwise_kernels
+    Xi = rng.randint(-4, 5, size=(14, 2)).astype(float)
+    variants = [Xi[rng.permutation(len(Xi))], Xi[::-1].copy(), Xi + np.where(np.arange(len(Xi))[:, None] % 2 == 0, 1.0, -1.0)]
+    for kern in ("linear", "rbf"):
+        for vi, Xv in enumerate(variants):
+            k = km.Kauri(max_clusters=3, kernel=kern, random_state=0).fit(Xi)
+            pred = k.predict(Xv)
+            Kv = pairwise_kernels(Xv, metric=kern)
+            ref_score = sum(Kv[np.ix_(pred == c, pred == c)].sum() / max(1, int((pred == c).sum())) for c in np.unique(pred))
+            ok_s = abs(float(k.score(Xv)) - ref_score) <= 1e-8 * max(1.0, abs(ref_score))
+            k.fit(Xv)
+            ok_f = tree_sig(k) == tree_sig(km.Kauri(max_clusters=3, kernel=kern, random_state=0).fit(Xv))
+            res["paths"] += 1
+            res["obligations"].append({"name": f"kauri/{kern}/same-shape same-sum data #{vi}: score == objective of its own partition, refit == fresh fit", "verdict": "unsat" if (ok_s and ok_f) else "sat", "how": "concrete"})
+            if not (ok_s and ok_f) and not any(v["signature"].endswith("stale-kernel") for v in res["violations"]):
+                res["violations"].append({"signature": f"{PROP}:Kauri:stale-kernel", "what": f"Kauri(kernel={kern!r}): after fit(X), score / fit on other data of the same shape and sum uses something computed for X", "replay": {"kind": "kauri"}})
     res["samples"].append({"sequences": 16, "configs": 3})
     return res
 
@@ -528,11 +548,38 @@ def replay(rep, verbose=False):
         return bool(job_kauri()["violations"])
     if kind == "effects-named":
         lin = loader.real("linear._linear_geminis")
-        cls_ = getattr(lin, rep["cls"])
+        cls_ = getattr(lin, rep["cls"], None)
         rng = np.random.RandomState(0)
         rs = np.random.RandomState(3)
         Xn = np.abs(rs.normal(size=(14, 3))) + 0.1          # positive entries: the chi2 kernels need them
         pristine = Xn.copy()
+        if rep["attr"] == "kernel+params":
+            # a parameter dictionary WITHOUT gamma: the caller's dictionary (a constructor hyper-parameter) must come back as it was given
+            import copy
+            kname, kparams = rep["name"]
+            given = copy.deepcopy(kparams)
+            m = cls_(n_clusters=2, max_iter=2, random_state=0, kernel=kname, kernel_params=given)
+            m.fit(Xn)
+            m.score(Xn)
+            bad = given != kparams or m.get_params()["kernel_params"] != kparams
+            if verbose:
+                print(rep["cls"], kname, "kernel_params given", kparams, "after fit / score", given)
+            return bad
+        if rep["attr"] == "precomputed":
+            # the caller's precomputed matrix (float64, C-contiguous, NON-ZERO diagonal) through fit, score and fit_predict
+            npm = loader.real("nonparametric._categorical_models")
+            cls_ = getattr(lin, rep["cls"], None) or getattr(npm, rep["cls"])
+            G = rs.normal(size=(14, 4))
+            D = np.ascontiguousarray(np.abs(G @ G.T) + 0.7 * np.eye(14))
+            pristine_D = D.copy()
+            key = "metric" if "Wasserstein" in rep["cls"] else "kernel"
+            m = cls_(n_clusters=2, max_iter=2, random_state=0, ovo=rep["name"], **{key: "precomputed"})
+            m.fit(Xn, D)
+            m.score(Xn, D)
+            m.fit_predict(Xn, D)
+            if verbose:
+                print(rep["cls"], "ovo", rep["name"], "max |D - pristine| =", float(np.abs(D - pristine_D).max()))
+            return not (np.array_equal(D, pristine_D) and np.array_equal(Xn, pristine))
         try:
             m = cls_(n_clusters=2, max_iter=2, random_state=0, **{rep["attr"]: rep["name"]})
             m.fit(Xn)
